@@ -162,6 +162,19 @@ CLAIMED["C18"] = dict(
     technique="Lean 4 theorems over a hand-written model + sampled correspondence (sfmodel c18 vs sfh under ASan) + property predicate on the implementation transcript with exact bit-pattern arithmetic",
     design_ref="DESIGN.md §7 C18")
 
+CLAIMED["C14"] = dict(
+    text="Proof (Lean 4) over a code-shaped model of the POSIX I/O shim of file_io.c (psf_fseek / fread / fwrite / ftell / get_filelen / ftruncate / fclose with the "
+         "virtual_io switch, fileoffset, filelength, pipeoffset, do_not_close_descriptor), sf_open_fd and the route-related parts of psf_open_file, on a world of one OS file, "
+         "its descriptor, the process's descriptor set and the user's callback store: routes_equivalent (simulation, for every operation sequence: path, descriptor, callbacks and a "
+         "descriptor at offset k with any bytes around give the same results and logical content), embedded_window (bytes in front of fileoffset never modified; a reader inside the "
+         "window cannot see what follows it), close_desc_iff (the handle's descriptor is closed iff close_desc, no other descriptor ever), written_bytes_route_independent, "
+         "pipe_equivalent, the embedding whitelist and the RDWR / SD2 refusals. Partial: the full statement is refuted by proved witnesses in three known-finding classes "
+         "(SFC_FILE_TRUNCATE through virtual I/O, SFC_FILE_TRUNCATE on an embedded write handle, embedded read of a file shorter than its header says), each replayed every run; "
+         "two further exclusions (seek in front of the window, unknown whence) are proved to diverge and are never issued by the upper layer. Tied to the code by a sampled "
+         "correspondence that calls the real psf_* primitives on real descriptors, pipes and callbacks, by the open gate compared through SFC_GET_EMBED_FILE_INFO and fcntl (F_GETFD), "
+         "and by a route-against-route campaign over every writable format (SF_INFO, samples, strings, errors, written bytes). OS behaviour of descriptors and pipes is exercised, not modelled.",
+    technique="Lean 4 theorems over a hand-written model + sampled correspondence on the real shim primitives + route-against-route campaign on implementation transcripts",
+    design_ref="DESIGN.md §7 C14")
 
 def main():
     checks = []
